@@ -409,4 +409,27 @@ theorem rollback_restores (j : Nat) (hij : i < j) :
 
 end
 
+theorem readable_false (side : VMap) (hn : NodupP side) (p : Str) (h : liveAt side p = none) :
+    readable side p = false := by
+  simp only [readable, List.any_eq_false, Bool.and_eq_true, decide_eq_true_eq, Bool.not_eq_true', not_and,
+    Bool.not_eq_false]
+  intro e he hep
+  rw [liveAt_eq, ← hep, get_of_mem side e hn he] at h
+  simp only [liveOpt] at h
+  by_cases hd : e.deleted = true
+  · exact hd
+  · simp [hd] at h
+
+theorem rollbackSafe_spec (side ch : VMap) (hn : NodupP side) (h : rollbackSafe side ch = true) :
+    RollbackSafe side ch := by
+  simp only [rollbackSafe, List.all_eq_true, Bool.or_eq_true, Bool.not_eq_true', Bool.and_eq_true,
+    decide_eq_true_eq, Bool.or_eq_false_iff, Bool.not_eq_false] at h
+  intro c' hc' hcond
+  rcases h c' hc' with ⟨h1, h2⟩ | ⟨h1, h2⟩
+  · exfalso
+    rcases hcond with hd | hl
+    · rw [h1] at hd; exact absurd hd (by decide)
+    · rw [readable_false side hn c'.path hl] at h2; exact absurd h2 (by decide)
+  · exact ⟨h1, fun c hc => h2 c hc⟩
+
 end OnosVerif.Config
